@@ -173,8 +173,10 @@ def r4_cancel(ctx, prog):
         takes = [st for st in c.stmts if st and _is_take(cls)(c, st)]
         erases = [st for st in c.stmts if st and q.is_call(st, fn='erase') and st.get('cls', '').startswith('std::deque<')]
         pool_frees = [st for st in c.stmts if st and q.is_call(st, fn='free', cls='tbox::ObjectPool<')]
-        if not takes or not erases:
-            raise AnalysisBroken('%s::cancel: free/erase events missing' % cls)
+        if not takes:
+            raise AnalysisBroken('%s::cancel: cabinet free event missing' % cls)
+        if not erases:
+            ctx.ob('C05.R4', '%s|dequeue-by-erase' % c.name, False, 'cancel() does not remove the token from the waiting deque with erase(): order of the remaining tasks is not preserved', where=c.loc(c.body))
         if not finds:
             ctx.ob('C05.R4', '%s|executing-first' % c.name, False, 'cancel() never consults the running set: a task that is executing is reported as not found / cancelled', where=c.loc(c.body))
         rets = {}
@@ -281,6 +283,20 @@ def r5_join(ctx, prog):
                 if js and ds:
                     okl = True
             ctx.ob('C05.R5', '%s|self-retire' % w.name, okl, 'retiring worker posts a join+delete of its own std::thread to the loop', where=w.loc(tf[0]['i']))
+            # cleanup() may have taken the thread first: the free() result is tested before it is handed to the loop
+            from rules.C14 import null_guarded
+            tv = None
+            for st in w.stmts:
+                if st and st['k'] == 'DeclStmt':
+                    for d in st['decls']:
+                        if 'init' in d and tf[0]['i'] in set(w.walk(d['init'])):
+                            tv = d
+            lam_sites = [x for x in w.stmts if x and x['k'] == 'LambdaExpr' and any(c.get('d') == (tv or {}).get('d') for c in x.get('caps', ()))]
+            okn = tv is not None and bool(lam_sites) and all(null_guarded(w, w.cfg.point_of(x['i']), tv['d']) for x in lam_sites)
+            ctx.ob('C05.R5', '%s|self-retire-null' % w.name, okn,
+                   'the thread taken out of threads_cabinet is null-tested before it is posted (cleanup() may have taken it first)' if okn else
+                   'threads_cabinet.free() may return nullptr when cleanup() collected the thread between the worker\'s two critical sections; the posted task dereferences it',
+                   where=w.loc(tf[0]['i']))
 
 
 def r6_priority(ctx, prog):
@@ -305,6 +321,20 @@ def r6_priority(ctx, prog):
             raise AnalysisBroken('%s::execute: no enqueue found' % cls)
         for f, st in pushes:
             ctx.ob('C05.R6', '%s|fifo-put' % f.name, st['fn'] in ('push_back', 'emplace_back'), 'enqueue at the back (%s)' % st['fn'], where=f.loc(st['i']))
+        # queue discipline over every function of the class: the waiting deques are only appended at the back, read/popped at the
+        # front, erased by iterator (cancel) or inspected; nothing writes through an iterator / reference into them
+        allowed = {'push_back', 'emplace_back', 'front', 'pop_front', 'erase', 'empty', 'size', 'begin', 'end', 'cbegin', 'cend'}
+        for f in scope_funcs(prog, cls):
+            for st in f.calls():
+                if st.get('cls', '').startswith('std::deque<tbox::cabinet::Token') and st.get('fn') not in allowed and not (st.get('fn') or '').startswith('~') and not st.get('fn', '').startswith('deque'):
+                    ctx.ob('C05.R6', '%s|deque.%s' % (locks.site_name(prog, f), st['fn']), False, 'waiting deque used with %s(): breaks first-in-first-out within a priority' % st['fn'], where=f.loc(st['i']))
+            for st in f.stmts:
+                # *iter = ...  with iter an iterator of the token deque
+                if st and st['k'] in ('CXXOperatorCallExpr', 'BinaryOperator') and st.get('op') == '=':
+                    lhs = st.get('obj') if st['k'] == 'CXXOperatorCallExpr' else st['ch'][0]
+                    l = f.s(f.strip_casts(lhs)) if lhs is not None else None
+                    if l and l['k'] == 'CXXOperatorCallExpr' and l.get('op') == '*' and l.get('cls', '').startswith('std::_Deque_iterator<tbox::cabinet::Token'):
+                        ctx.ob('C05.R6', '%s|deque-overwrite' % locks.site_name(prog, f), False, 'an element of the waiting deque is overwritten in place: queue order is not preserved', where=f.loc(st['i']))
         if cls.endswith('ThreadPool'):
             # ascending scan from 0
             loops = [st for st in pop.stmts if st and st['k'] == 'ForStmt']
@@ -366,6 +396,40 @@ def r7_bound(ctx, prog):
         raise AnalysisBroken('no createWorker() call in execute()')
 
 
+def r10_idle_counter(ctx, prog):
+    ctx.rule('C05.R10', 'A4 pairing: idle_thread_num counts the workers inside the condition-variable wait: it is incremented right before and decremented '
+                        'right after that wait and written nowhere else while workers may exist (a reset is only sound after every worker was joined)', floor=2)
+    cls = 'tbox::eventx::ThreadPool'
+    fld = cls + '::Data::idle_thread_num'
+    w = prog.fn1(cls + '::threadProc')
+    waits = [st for st in w.calls() if st.get('fn') in locks.CV_WAITS and st.get('cls', '').startswith('std::condition_variable')]
+    if len(waits) != 1:
+        raise AnalysisBroken('ThreadPool::threadProc: expected one condition-variable wait, found %d' % len(waits))
+    wp = q.pt(w, waits[0])
+    for f in scope_funcs(prog, cls):
+        for st in f.stmts:
+            if not st or st['k'] != 'MemberExpr' or st.get('q') != fld or locks.classify_access(f, st['i']) != 'w':
+                continue
+            p_, _ = f.up(st['i'])
+            ps = f.s(p_)
+            ok, why = False, 'write outside the wait bracket'
+            if f is w and ps['k'] == 'UnaryOperator' and ps.get('op') == '++':
+                pp = q.pt(w, ps)
+                ok = w.cfg.dominates(pp, wp) and not w.cfg.exists_path(pp, 'exit', avoid=[wp]) and not w.cfg.exists_path(pp, pp, avoid=[wp])
+                why = 'increment immediately before the wait'
+            elif f is w and ps['k'] == 'UnaryOperator' and ps.get('op') == '--':
+                pp = q.pt(w, ps)
+                ok = w.cfg.dominates(wp, pp) and q.must_follow(w, wp, [pp])
+                why = 'decrement on every path after the wait'
+            elif ps['k'] == 'BinaryOperator' and ps.get('op') == '=' and f.s(f.strip_casts(ps['ch'][1])).get('cv') == 0:
+                joins = [x for x in f.calls() if x.get('fn') == 'join' and x.get('cls') == 'std::thread']
+                loops = [f.enclosing(j['i'], ('CXXForRangeStmt', 'ForStmt', 'WhileStmt')) for j in joins]
+                ok = bool(joins) and all(l is not None and f.cfg.dominates(f.cfg.point_of(f.stmts[l].get('cond') if f.stmts[l].get('cond') is not None else f.stmts[l]['range']), q.pt(f, ps)) and
+                                         not f.cfg.exists_path(q.pt(f, ps), q.pt(f, j)) for l, j in zip(loops, joins))
+                why = 'reset to 0 after all workers were joined' if ok else 'reset to 0 while workers can still be inside the wait: their pending decrement wraps the counter and the pool never grows again'
+            ctx.ob('C05.R10', '%s|idle_thread_num:%s' % (locks.site_name(prog, f), ps.get('op', ps['k'])), ok, why, where=f.loc(st['i']))
+
+
 def r9_nolock_user(ctx, prog):
     ctx.rule('C05.R9', 'A2: Data::lock is not held while a task body runs nor while cleanup joins (no lock->USER edge, '
                        'so cleanup cannot deadlock against a task)', floor=4)
@@ -398,4 +462,5 @@ def run(ctx):
     ctx.guard(r6_priority, ctx, prog)
     ctx.guard(r7_bound, ctx, prog)
     ctx.guard(r9_nolock_user, ctx, prog)
+    ctx.guard(r10_idle_counter, ctx, prog)
     return prog
